@@ -312,3 +312,49 @@ KEEP += [
     ('K78', RT, "            match self.extend(q_target, extend_length, is_free) {", "            let mut is_free_or_target = |q: &[N]| q == q_target || is_free(q);\n            match self.extend(q_target, extend_length, &mut is_free_or_target) {", ['C13'], 'connect admits its target unchecked; every connect target is a vertex of the other tree'),
     ('K79', RT, "        let extend_status = tree_a.extend(&q_rand, extend_length, &mut is_free);", "        let extend_status = tree_a.connect(&q_rand, extend_length, &mut is_free);", ['C13'], 'greedy growth towards the sample (every node still checked)'),
 ]
+
+# ---- sixth batch: jacobian, parallelogram, tool/base, shape wrapper
+KEEP += [
+    ('K80', J, "        let joint_torques = self.matrix.transpose() * desired_force_torgue_vector;\n        vector6_to_joints(joint_torques)", "        self.torques_from_vector(&desired_force_torgue_vector)", ['C15'], 'torques delegates to torques_from_vector'),
+    ('K81', J, "        let joint_velocities: Vector6<f64>;\n        if let Some(jacobian_inverse) = self.matrix.try_inverse() {\n            joint_velocities = jacobian_inverse * X;\n        } else {", "        let joint_velocities: Vector6<f64>;\n        let inverse = self.matrix.try_inverse();\n        if let Some(jacobian_inverse) = inverse {\n            joint_velocities = jacobian_inverse * X;\n        } else {", ['C15'], 'inverse held in a local'),
+    ('K82', J, "        let delta_orientation = (perturbed_orientation * current_orientation.inverse()).scaled_axis() / epsilon;", "        let relative = perturbed_orientation * current_orientation.inverse();\n        let delta_orientation = relative.scaled_axis() / epsilon;", ['C15'], 'relative rotation held in a local'),
+    ('K83', J, "    let jacobian_columns: Vec<_> = (0..6).into_iter().map(|i| {", "    let jacobian_columns: Vec<_> = (0..6).map(|i| {", ['C15'], 'redundant into_iter dropped'),
+    ('K84', P, "    fn forward_with_joint_poses(&self, joints: &Joints) -> [Pose; 6] {\n        let mut joints = *joints; \n        // Adjusting coupled joint based on driven joint in forward kinematics\n        joints[self.coupled] -= self.scaling * joints[self.driven]; \n        self.robot.forward_with_joint_poses(&joints)", "    fn forward_with_joint_poses(&self, joints: &Joints) -> [Pose; 6] {\n        let mut inner = *joints;\n        let shift = self.scaling * joints[self.driven];\n        inner[self.coupled] = joints[self.coupled] - shift;\n        self.robot.forward_with_joint_poses(&inner)", ['C16'], 'pre-map with a named shift'),
+    ('K85', P, "    fn inverse_5dof(&self, tcp: &Pose, j6: f64) -> Solutions {\n        let mut solutions = self.robot.inverse_5dof(tcp, j6);\n\n        // Reversing the influence of driven joint in inverse kinematics        \n        solutions.iter_mut().for_each(|x| x[self.coupled] += \n            self.scaling * x[self.driven]); \n        solutions", "    fn inverse_5dof(&self, tcp: &Pose, j6: f64) -> Solutions {\n        let mut solutions = self.robot.inverse_5dof(tcp, j6);\n        for i in 0..solutions.len() {\n            solutions[i][self.coupled] += self.scaling * solutions[i][self.driven];\n        }\n        solutions", ['C16', 'C08'], 'post-map as an index loop'),
+    ('K86', T, "        self.base * self.robot.forward(joints)\n    }", "        let flange = self.robot.forward(joints);\n        self.base * flange\n    }", ['C09'], 'inner pose held in a local'),
+    ('K87', T, "        let mut poses = self.robot.forward_with_joint_poses(joints);\n\n        // Apply the base transformation to each pose\n        for pose in poses.iter_mut() {\n            *pose = self.base * *pose;\n        }\n\n        poses", "        self.robot.forward_with_joint_poses(joints).map(|pose| self.base * pose)", ['C09'], 'link poses mapped with array::map'),
+    ('K88', T, "    fn inverse_5dof(&self, tcp: &Pose, j6: f64) -> Solutions {\n        self.robot.inverse_5dof(&(tcp * self.tool.inverse()), j6)", "    fn inverse_5dof(&self, tcp: &Pose, j6: f64) -> Solutions {\n        let flange: Pose = tcp * self.tool.inverse();\n        self.robot.inverse_5dof(&flange, j6)", ['C09', 'C06'], 'flange pose held in a typed local'),
+    ('K89', W, "    fn inverse(&self, pose: &Pose) -> Solutions {\n        let solutions = self.kinematics.inverse(pose);\n        self.remove_collisions(solutions)", "    fn inverse(&self, pose: &Pose) -> Solutions {\n        self.remove_collisions(self.kinematics.inverse(pose))", ['C11', 'C08'], 'temporaries inlined in the shape wrapper'),
+    ('K90', W, "        let robot_with_base = Base {\n            robot: Arc::new(plain_robot),\n            base: base_transform.clone(),\n        };\n\n        let robot_with_base_and_tool = Tool {\n            robot: Arc::new(robot_with_base),\n            tool: tool_transform.clone(),\n        };\n\n        robot_with_base_and_tool", "        Tool {\n            robot: Arc::new(Base {\n                robot: Arc::new(plain_robot),\n                base: base_transform,\n            }),\n            tool: tool_transform,\n        }", ['C11'], 'stack built as one expression'),
+]
+
+KEEP += [
+    ('K91', None, [(K, 'filter_constraints_compliant', 'only_compliant', True), (K, 'constraints_compliant', 'is_within_limits', True), (K, 'compare_poses', 'poses_match', True),
+                   (K, 'normalize_near', 'wrap_near', True), (K, 'calculate_distance', 'joint_distance', True), (K, 'are_angles_close', 'angles_close', True),
+                   (K, 'is_close_to_multiple_of_pi', 'near_multiple_of_pi', True), (K, 'sort_by_closeness', 'order_by_closeness', True),
+                   (K, 'inverse_intern_5_dof', 'solve_all_five', True), (K, 'inverse_intern', 'solve_all', True), (K, 'compare_xyz_only', 'positions_match', True),
+                   (C, 'compute_centers', 'centres_of', True), (C, 'inside_bounds', 'within_arc', True),
+                   (CO, 'check_required', 'needs_check', True), (CO, 'count_tasks', 'task_count', True), (CO, 'process_collision_tasks', 'run_tasks', True),
+                   (CO, 'detect_collisions_with_skips', 'detect_with_skips', True),
+                   (W, 'remove_collisions', 'drop_colliding', True),
+                   (CA, 'step_adaptive_linear_transition', 'bridge', True), (CA, 'probe_strategy', 'try_strategy', True), (CA, 'with_intermediate_poses', 'all_poses', True)],
+     None, ['C01', 'C02', 'C04', 'C05', 'C06', 'C07', 'C08', 'C10', 'C11', 'C12', 'C14', 'C18'], 'twenty-one private helpers renamed'),
+]
+
+KEEP += [
+    ('K92', None, [(RT, 'add_vertex', 'insert_node', True), (RT, 'get_until_root', 'ancestors', True), (RT, 'add_edge', 'link', True), (RT, 'get_nearest_index', 'nearest', True),
+                   (RT, 'fn extend<', 'fn grow<', False), (RT, 'self.extend(', 'self.grow(', True), (RT, 'tree_a.extend(', 'tree_a.grow(', True),
+                   (RT, 'fn connect<', 'fn grow_until<', False), (RT, 'tree_b.connect(', 'tree_b.grow_until(', True),
+                   (CO, "    fn collides(&self, safety: &SafetyDistances) -> Option<(u16, u16)> {", "    fn verdict(&self, safety: &SafetyDistances) -> Option<(u16, u16)> {", False),
+                   (CO, 'task.collides(&safety)', 'task.verdict(&safety)', True),
+                   (W, 'create_robot_with_base_and_tool', 'build_stack', True),
+                   (CA, 'fn interpolate(', 'fn blend(', False), (CA, 'from.interpolate(to, DIV_RATIO)', 'from.blend(to, DIV_RATIO)', False)],
+     None, ['C13', 'C10', 'C14', 'C11', 'C12'], 'private methods of the RRT tree, the collision task, the stack builder and the pose interpolation renamed'),
+]
+
+import json as _json, os as _os
+_k93 = _json.load(open(_os.path.join(_os.path.dirname(__file__), 'keep', 'K93_params_renamed.json')))
+KEEP += [
+    ('K93', None, [(f, old, new, False) for f, old, new in _k93], None, ['C14', 'C10', 'C15', 'C12'],
+     'parameters and locals renamed in non_colliding_offsets, compute_jacobian, the pose-list builder and the interpolating helper'),
+]
